@@ -103,7 +103,7 @@ func init() {
 	register(&Def{
 		ID:          "C09",
 		Technique:   "gate dominance for push entry points, running-state facts at the push send, atomic id counter, single-writer slot typestate for the callback table, predicate extraction in the reply filter, provenance of the queued batch",
-		Explanation: "Decides: (D1) the push function is called only on the allowPush edge, the other edge returning a package-level error; (D2) the push send requires the running state in its critical section and the not-running edge returns a package-level error; (D3) callback ids come from FormatInt(counter) with counter++ in one critical section; (D4) callback slots are written only after lookup-and-remove under the server lock (reader interception and context watcher), registered with key = id together with a context watcher, all cancelled by the stop function; (D5) the reply filter keeps a member for dispatch only if it is a request/notification or push is disabled, and never returns its input; (D6) the reader queues exactly the filter's result (interception precedes queueing, under the lock). (D7) the callback watcher is started on every path after registration; a removed callback entry is always completed; every look-up in the callback table sits on the ¬isRequestOrNotification edge. (D8) the request predicate is exactly method ≠ \"\" ∧ no error ∧ no result; the callback table is assigned only at construction; replies are matched by their whole id text. Also decided: Callback's error filter returns the peer's error itself or a context sentinel, never nil for a non-nil error.",
+		Explanation: "Decides: (D1) the push function is called only on the allowPush edge, the other edge returning a package-level error; (D2) the push send requires the running state in its critical section and the not-running edge returns a package-level error; (D3) callback ids come from FormatInt(counter) with counter++ in one critical section; (D4) callback slots are written only after lookup-and-remove under the server lock (reader interception and context watcher), registered with key = id together with a context watcher, all cancelled by the stop function; (D5) the reply filter keeps a member for dispatch only if it is a request/notification or push is disabled, and never returns its input; (D6) the reader queues exactly the filter's result (interception precedes queueing, under the lock). (D7) the callback watcher is started on every path after registration; a removed callback entry is always completed; every look-up in the callback table sits on the ¬isRequestOrNotification edge. (D8) the request predicate is exactly method ≠ \"\" ∧ no error ∧ no result; the callback table is assigned only at construction; replies are matched by their whole id text. Also decided: Callback's error filter returns the peer's error itself or a context sentinel, never nil for a non-nil error. Also decided: the member parser never clears the error or result member of a message it is parsing, and installs an error object only by decoding into the field (a null error member is no error).",
 		NotDecided:  []string{"which of reply / context end / stop wins a race for a callback"},
 		Assumptions: []string{"sync.Mutex semantics"},
 		RuleText:    ruleText,
@@ -127,6 +127,7 @@ func init() {
 			rulePendingTablesNeverReplaced(c, c.M.SCall)
 			ruleReplyKeyWhole(c, c.M.SCall, "server")
 			ruleRequestPredicateTable(c)
+			ruleNullErrorIsAbsent(c)
 			ruleLockField(c, "server", c.M.SCall, c.M.SCallID)
 			c.Clause("C09-D5/D6")
 			ruleReplyFilter(c)
